@@ -1,5 +1,7 @@
 """./check driver: decide one property with symnp."""
 import argparse
+import warnings
+warnings.filterwarnings('ignore')
 import json
 import os
 import random
@@ -33,6 +35,7 @@ def main():
     ap.add_argument('--only', default=None)
     ap.add_argument('--jobs', type=int, default=min(16, os.cpu_count() or 4))
     ap.add_argument('--no-evidence', action='store_true')
+    ap.add_argument('--verbose', action='store_true')
     args = ap.parse_args()
     pid = args.pid
     tier = args.tier if args.tier in ('quick', 'thorough') else 'quick'
@@ -91,6 +94,8 @@ def main():
             undecided.append(dict(harness=n, name='paths', reason='path bound reached; remaining paths outside the claim'))
         seen_models = set()
         for rec in r['records']:
+            if args.verbose and rec.get('secs', 0) > 0.5:
+                log(f"    slow: {n} path{rec['path']} {rec['name']} -> {rec['status']} by {rec['by']} {rec['secs']}s")
             n_obl += 1
             solver_time += rec.get('secs', 0)
             by_solver[rec['by']] = by_solver.get(rec['by'], 0) + 1
@@ -117,6 +122,26 @@ def main():
                 undecided.append(dict(harness=n, name=rec['name'], reason='solver: unknown/timeout on all back ends',
                                       path=rec['path']))
 
+    # ---- fidelity: symbolic terms vs. the unpatched float code at path witnesses
+    fid = dict(points=0, values=0, mismatching_values=0, generic_points=0, details=[])
+    fid_bad_generic = []
+    for n in names:
+        for fw in results[n].get('fidelity', []):
+            try:
+                nv, nb, det = runner.fidelity_compare(pid, n, fw, tier)
+            except Exception as e:      # the code raised on the witness: not comparable
+                nv, nb, det = 0, 0, f'code raised {type(e).__name__}'
+            if nv:
+                fid['points'] += 1
+                fid['values'] += nv
+                fid['generic_points'] += 1 if fw.get('generic') else 0
+            if nb:
+                fid['mismatching_values'] += nb
+                fid['details'].append(dict(harness=n, path=fw.get('path'), generic=fw.get('generic'), detail=det,
+                                           env=fw['env']))
+                if fw.get('generic'):
+                    fid_bad_generic.append(n)
+
     # ---- known findings: replay each open witness
     kf_lines = []
     kf_stale = []
@@ -126,7 +151,7 @@ def main():
         hn = k['harness']
         if hn not in REGISTRY:
             continue
-        rep, detail = runner.replay(pid, hn, k['witness'], tier)
+        rep, detail = runner.replay(pid, hn, k['witness'], tier, replay_kf=k['id'])
         if rep:
             kf_lines.append(f"KNOWN-FINDING: property={pid} {k['id']}: {k['what']}")
         else:
@@ -161,7 +186,7 @@ def main():
             decided_by=by_solver, solver_time_s=round(solver_time, 2),
             undecided_list=undecided[:200], sat_not_reproduced_list=unreproduced[:50],
             known_findings_reproduced=[l for l in kf_lines], known_findings_not_reproducing=kf_stale,
-            vacuous_harnesses=vacuous, harness_errors=harness_errors,
+            vacuous_harnesses=vacuous, harness_errors=harness_errors, fidelity=fid,
             bounds=meta.get('bounds', ''), outside_claim=meta.get('outside', []),
             trusted_base=["symnp proxy of the NumPy surface (symnp/proxy.py)", "z3 5.1.0 / z3 4.8.12 / cvc5 1.0.3",
                           "exact-real semantics for IEEE doubles"],
@@ -174,9 +199,18 @@ def main():
             json.dump(ev, f, indent=1, default=str)
     log(f"symnp: {pid} {tier}: obligations={n_obl} unsat={n_unsat} sat={n_sat} (reproduced {len(violations)}, "
         f"not reproduced {len(unreproduced)}) undecided={len(undecided)} wall={wall:.1f}s")
+    log(f"  fidelity: {fid['points']} witness points, {fid['values']} output values compared with the unpatched code, "
+        f"{fid['mismatching_values']} mismatching")
+    for d in fid['details'][:5]:
+        log(f"  fidelity-mismatch: {json.dumps(d, default=str)[:400]}")
     for u in undecided[:30]:
         log(f"  undecided: {u['harness']} :: {u['name']} :: {u['reason'][:150]}")
-    for u in unreproduced[:10]:
+    import warnings
+    seen_u = set()
+    for u in unreproduced:
+        if (u['harness'], u['obligation'].split('[')[0]) in seen_u or len(seen_u) > 12:
+            continue
+        seen_u.add((u['harness'], u['obligation'].split('[')[0]))
         log(f"  sat-not-reproduced: {u['harness']} :: {u['obligation']} :: {json.dumps(u['detail'], default=str)[:300]}")
     if violations:
         for v in violations:
